@@ -1128,3 +1128,52 @@ Proof.
   destruct (rebootstrap_forgets g (fold_left (process_op g) before s0) cp b now max_age strict B) as [-> _].
   apply run_ops_msgs.
 Qed.
+
+(* ================================================================== relevance, for all values
+   An update whose attested header is not newer than the store's finalized header is rejected as not relevant unless the store
+   lacks a next committee AND the update carries one AND its ATTESTED period is the store's period.  In particular the closing
+   update of the previous period (attested in its last slot, signed in the first slot of the store's period) is rejected by a
+   store finalized in the current period: its "next" committee is the committee of the store's own period. *)
+Theorem verify_rejects_irrelevant s u now genesis fv bits :
+  get_bits (u_bits u) = Ok bits -> bits <> 0 ->
+  u_sigslot u <= now -> h_slot (u_attested u) < u_sigslot u -> fin_slot_or_0 u <= h_slot (u_attested u) ->
+  period_fits s u ->
+  h_slot (u_attested u) <= h_slot (s_fin s) ->
+  ~ (s_next s = None /\ u_next u <> None /\
+     calc_sync_period (h_slot (u_attested u)) = calc_sync_period (h_slot (s_fin s))) ->
+  verify s u now genesis fv = Err E_NOT_RELEVANT.
+Proof.
+  intros G NZ T1 T2 T3 PF L NR. unfold verify. rewrite G. cbn [bind]. replace (bits =? 0) with false by lia.
+  replace ((u_sigslot u <=? now) && (h_slot (u_attested u) <? u_sigslot u) && (fin_slot_or_0 u <=? h_slot (u_attested u))) with true by lia.
+  cbn [negb].
+  assert (VP : match s_next s with
+               | Some _ => (calc_sync_period (u_sigslot u) =? calc_sync_period (h_slot (s_fin s))) ||
+                           (calc_sync_period (u_sigslot u) =? calc_sync_period (h_slot (s_fin s)) + 1)
+               | None => calc_sync_period (u_sigslot u) =? calc_sync_period (h_slot (s_fin s))
+               end = true).
+  { unfold period_fits in PF. destruct (s_next s) as [nx|]; [destruct PF as [E | [_ E]]; rewrite E; rewrite ?N.eqb_refl, ?orb_true_r; reflexivity|].
+    destruct PF as [E | [F _]]; [rewrite E; apply N.eqb_refl | congruence]. }
+  rewrite VP. cbn [negb].
+  assert (VR : (h_slot (u_attested u) <=? h_slot (s_fin s)) &&
+               negb (negb (is_some (s_next s)) && is_some (u_next u) &&
+                     (calc_sync_period (h_slot (u_attested u)) =? calc_sync_period (h_slot (s_fin s)))) = true).
+  { apply andb_true_iff. split; [lia|]. apply negb_true_iff. apply not_true_is_false. intros H.
+    apply andb_true_iff in H as [H H3]. apply andb_true_iff in H as [H1 H2]. apply NR.
+    split; [destruct (s_next s); [discriminate | reflexivity]|]. split; [destruct (u_next u); [discriminate | discriminate]|]. lia. }
+  rewrite VR. reflexivity.
+Qed.
+
+Corollary closing_update_of_previous_period_rejected s u now genesis fv bits :
+  get_bits (u_bits u) = Ok bits -> bits <> 0 -> u_sigslot u <= now ->
+  fin_slot_or_0 u <= h_slot (u_attested u) ->
+  let p := calc_sync_period (h_slot (s_fin s)) in
+  1 <= p -> u_sigslot u = p * 8192 -> h_slot (u_attested u) = p * 8192 - 1 ->
+  verify s u now genesis fv = Err E_NOT_RELEVANT.
+Proof.
+  intros G NZ T1 T3 p P1 SG AT. subst p.
+  apply (verify_rejects_irrelevant s u now genesis fv bits G NZ T1); try assumption.
+  - unfold calc_sync_period in *. lia.
+  - left. unfold calc_sync_period in *. lia.
+  - unfold calc_sync_period in *. lia.
+  - intros (_ & _ & E). unfold calc_sync_period in *. lia.
+Qed.
